@@ -24,7 +24,7 @@ use crate::rng::Rng;
 
 /// An element type of the lists under test. Elements are made from `u64` keys; the
 /// model only stores keys.
-pub trait Elem: Value<Transformed: PartialEq> + Clone + Debug + Send + 'static {
+pub trait Elem: Value<Transformed: PartialEq> + PartialEq + Clone + Debug + Send + 'static {
     const NAME: &'static str;
     /// element equality calls `List::eq` (nested lists): contains/index may block
     const EQ_MAY_BLOCK: bool = false;
